@@ -5,6 +5,9 @@ package main
 //            rare binary (and the batcher library in-process) on them, compares with the outcome the
 //            specification demands (B1) and records every observation for Inputs_Trace
 //   random : seeded random larger trees / argument lists; observations recorded for Inputs_Trace (B2)
+//   fdlimit: more inputs than descriptors, reader slots held by FIFOs (fd.go)
+// Inputs with transport "pipe" are FIFOs fed by the driver (relative paths) or inherited descriptors
+// (/dev/stdin, /dev/fd/3) fed from a pipe or a regular file.
 
 import (
 	"bytes"
@@ -13,6 +16,7 @@ import (
 	"encoding/json"
 	"flag"
 	"fmt"
+	"io"
 	"math/rand"
 	"os"
 	"os/exec"
@@ -22,6 +26,7 @@ import (
 	"strconv"
 	"strings"
 	"sync"
+	"syscall"
 	"time"
 
 	"rare/pkg/extractor/batchers"
@@ -32,13 +37,14 @@ import (
 )
 
 func main() {
-	vh.Main(vh.Commands{"replay": c06Replay, "random": c06Random})
+	vh.Main(vh.Commands{"replay": c06Replay, "random": c06Random, "fdlimit": c06Fdlimit})
 }
 
 type Node struct {
 	P    []int  `json:"p"` // path as the bytes of "d/e/f"
 	K    string `json:"k"`
 	Data []int  `json:"data"`
+	Tr   string `json:"tr"` // "reg" | "pipe"
 }
 
 type Stdin struct {
@@ -65,6 +71,7 @@ type Expect struct {
 	Read    int       `json:"read"`
 	Parse   int       `json:"parse"`
 	Partial []Partial `json:"partial"`
+	MaxOpen int       `json:"maxopen"`
 }
 
 type Scenario struct {
@@ -75,10 +82,18 @@ type Scenario struct {
 	Gz      bool    `json:"gz"`
 	Readers int     `json:"readers"`
 	Cmd     string  `json:"cmd"`
+	Nofile  int     `json:"nofile"` // descriptor limit of the process under test (0 = inherited)
 	Exp     *Expect `json:"exp,omitempty"`
+	// the names of the mentions (from the model; used only to see which FIFOs will be opened)
+	Mentions [][]int `json:"mentions,omitempty"`
 	// chosen by the driver (not part of the model)
 	Batch  int `json:"batch"`
 	CutSel int `json:"cutsel"` // where a truncated gzip is cut / which trailer byte is corrupted
+	Hold   int `json:"hold"`   // number of FIFOs whose readers are kept waiting while the open inputs are counted
+	Window int `json:"window"` // ... for this many milliseconds
+	// the same for the in-process run of the library (these runs are serialised: fewer and shorter)
+	LibHold   int `json:"libhold"`
+	LibWindow int `json:"libwindow"`
 }
 
 type Obs struct {
@@ -90,6 +105,7 @@ type Obs struct {
 	Read    int    `json:"read"`
 	Hang    bool   `json:"hang"`
 	Crash   bool   `json:"crash"` // the Go runtime aborted the process (panic / fatal error)
+	Peak    int    `json:"peak"`  // largest number of inputs seen open at the same time (-1: not sampled)
 	Stderr  string `json:"-"`
 }
 
@@ -98,6 +114,7 @@ type LibObs struct {
 	Rows []Row `json:"rows"`
 	Nerr int   `json:"nerr"`
 	Hang bool  `json:"hang"`
+	Peak int   `json:"peak"`
 }
 
 // ---------------------------------------------------------------- materialisation
@@ -158,6 +175,13 @@ func materialise(root string, sc *Scenario) error {
 	}
 	for i := range sc.Tree {
 		n := &sc.Tree[i]
+		if isAbsNode(n) {
+			// an inherited descriptor: its bytes wait in a file outside the tree
+			if err := os.WriteFile(extFile(root, n), fileBytes(n, sc.CutSel), 0o644); err != nil {
+				return err
+			}
+			continue
+		}
 		p := filepath.Join(root, string(vh.FromInts(n.P)))
 		if n.K == "dir" {
 			if err := os.MkdirAll(p, 0o755); err != nil {
@@ -168,11 +192,26 @@ func materialise(root string, sc *Scenario) error {
 		if err := os.MkdirAll(filepath.Dir(p), 0o755); err != nil {
 			return err
 		}
+		if n.Tr == "pipe" {
+			if err := syscall.Mkfifo(p, 0o644); err != nil {
+				return err
+			}
+			continue
+		}
 		if err := os.WriteFile(p, fileBytes(n, sc.CutSel), 0o644); err != nil {
 			return err
 		}
 	}
 	return nil
+}
+
+func cleanup(root string, sc *Scenario) {
+	os.RemoveAll(root)
+	for i := range sc.Tree {
+		if isAbsNode(&sc.Tree[i]) {
+			os.Remove(extFile(root, &sc.Tree[i]))
+		}
+	}
 }
 
 // ---------------------------------------------------------------- running the real binary
@@ -217,8 +256,13 @@ func usesStdin(sc *Scenario) bool {
 }
 
 func runCLI(rare, root string, sc *Scenario, deadline time.Duration) (Obs, error) {
-	obs := Obs{Rows: []Row{}, Matched: -1, Read: -1}
+	obs := Obs{Rows: []Row{}, Matched: -1, Read: -1, Peak: -1}
 	cmd := exec.Command(rare, cliArgs(sc)...)
+	if sc.Nofile > 0 {
+		// the limit is set by a wrapper shell (soft and hard, so that the Go runtime cannot raise it)
+		cmd = exec.Command("/bin/sh", append([]string{"-c", `ulimit -n "$1" || exit 97; shift; exec "$@"`, "sh",
+			strconv.Itoa(sc.Nofile), rare}, cliArgs(sc)...)...)
+	}
 	cmd.Dir = root
 	var env []string
 	for _, e := range os.Environ() {
@@ -241,22 +285,81 @@ func runCLI(rare, root string, sc *Scenario, deadline time.Duration) (Obs, error
 			cmd.Stdin = bytes.NewReader(vh.FromInts(sc.Stdin.Data))
 		}
 	}
+	// inherited descriptors: /dev/stdin and /dev/fd/3, from a pipe or from a regular file
+	var closers []io.Closer
+	defer func() {
+		for _, c := range closers {
+			c.Close()
+		}
+	}()
+	for i := range sc.Tree {
+		n := &sc.Tree[i]
+		if !isAbsNode(n) {
+			continue
+		}
+		var rd *os.File
+		if n.Tr == "pipe" {
+			r, w, err := os.Pipe()
+			if err != nil {
+				return obs, err
+			}
+			data := fileBytes(n, sc.CutSel)
+			go func() {
+				w.Write(data)
+				w.Close()
+			}()
+			rd = r
+		} else {
+			f, err := os.Open(extFile(root, n))
+			if err != nil {
+				return obs, err
+			}
+			rd = f
+		}
+		closers = append(closers, rd)
+		switch string(vh.FromInts(n.P)) {
+		case "/dev/stdin":
+			cmd.Stdin = rd
+		case "/dev/fd/3":
+			cmd.ExtraFiles = []*os.File{rd}
+		default:
+			return obs, fmt.Errorf("external input %q is not supported by the driver", string(vh.FromInts(n.P)))
+		}
+	}
+	fd := startFeeders(root, sc, sc.Hold > 0)
+	defer fd.finish()
 	if err := cmd.Start(); err != nil {
 		return obs, err
 	}
 	done := make(chan error, 1)
 	go func() { done <- cmd.Wait() }()
+	stopWatch := make(chan struct{})
+	peakc := make(chan int, 1)
+	if sc.Hold > 0 {
+		go func() {
+			peakc <- watch(cmd.Process.Pid, inputSet(root, sc), fd, sc.Hold, time.Duration(sc.Window)*time.Millisecond, stopWatch)
+		}()
+	} else {
+		peakc <- -1
+	}
 	select {
 	case <-done:
+		close(stopWatch)
+		obs.Peak = <-peakc
 	case <-time.After(deadline):
 		cmd.Process.Kill()
 		<-done
+		close(stopWatch)
+		<-peakc
 		obs.Hang = true
 		obs.Exit = -1
 		obs.Msg = "none"
 		return obs, nil
 	}
 	obs.Exit = cmd.ProcessState.ExitCode()
+	if sc.Nofile > 0 && obs.Exit == 97 {
+		return obs, fmt.Errorf("the wrapper shell could not set the descriptor limit %d: %s", sc.Nofile, se.String())
+	}
 	obs.Stderr = se.String()
 	obs.Msg = "none"
 	for _, line := range strings.Split(se.String(), "\n") {
@@ -323,13 +426,29 @@ var libMu sync.Mutex
 
 func runLib(root, work string, sc *Scenario) LibObs {
 	if usesStdin(sc) {
-		return LibObs{Rows: []Row{}}
+		return LibObs{Rows: []Row{}, Peak: -1}
+	}
+	for i := range sc.Tree {
+		if isAbsNode(&sc.Tree[i]) { // the driver's own standard input is not the scenario's
+			return LibObs{Rows: []Row{}, Peak: -1}
+		}
 	}
 	libMu.Lock()
 	defer libMu.Unlock()
 	defer os.Chdir(work)
 	if err := os.Chdir(root); err != nil {
-		return LibObs{Rows: []Row{}}
+		return LibObs{Rows: []Row{}, Peak: -1}
+	}
+	fd := startFeeders(root, sc, sc.LibHold > 0)
+	defer fd.finish()
+	stopWatch := make(chan struct{})
+	peakc := make(chan int, 1)
+	if sc.LibHold > 0 {
+		go func() {
+			peakc <- watch(os.Getpid(), inputSet(root, sc), fd, sc.LibHold, time.Duration(sc.LibWindow)*time.Millisecond, stopWatch)
+		}()
+	} else {
+		peakc <- -1
 	}
 	names := make([]string, len(sc.Argv))
 	for i, a := range sc.Argv {
@@ -348,9 +467,13 @@ func runLib(root, work string, sc *Scenario) LibObs {
 	}()
 	select {
 	case o := <-done:
+		close(stopWatch)
+		o.Peak = <-peakc
 		return o
 	case <-time.After(25 * time.Second):
-		return LibObs{Ran: true, Rows: []Row{}, Hang: true}
+		close(stopWatch)
+		<-peakc
+		return LibObs{Ran: true, Rows: []Row{}, Hang: true, Peak: -1}
 	}
 }
 
@@ -372,7 +495,11 @@ func record(t int, sc *Scenario, obs *Obs, lib *LibObs) vh.M {
 		if d == nil {
 			d = []int{}
 		}
-		tree = append(tree, vh.M{"p": comps(n.P), "k": n.K, "data": d})
+		tr := n.Tr
+		if tr == "" {
+			tr = "reg"
+		}
+		tree = append(tree, vh.M{"p": comps(n.P), "k": n.K, "data": d, "tr": tr})
 	}
 	args := make([][][]int, 0, len(sc.Argv))
 	for _, a := range sc.Argv {
@@ -383,7 +510,8 @@ func record(t int, sc *Scenario, obs *Obs, lib *LibObs) vh.M {
 		sd = []int{}
 	}
 	return vh.M{"event": "run", "t": t, "tree": tree, "stdin": vh.M{"k": sc.Stdin.K, "data": sd}, "args": args,
-		"rec": sc.Rec, "gz": sc.Gz, "readers": sc.Readers, "cmd": sc.Cmd, "batch": sc.Batch, "cutsel": sc.CutSel,
+		"rec": sc.Rec, "gz": sc.Gz, "readers": sc.Readers, "cmd": sc.Cmd, "nofile": sc.Nofile, "batch": sc.Batch,
+		"cutsel": sc.CutSel, "hold": sc.Hold,
 		"obs": obs, "lib": lib}
 }
 
@@ -418,7 +546,7 @@ func execAll(scs []*Scenario, rare, work string, par int, skipLib bool) []result
 				root := filepath.Join(work, fmt.Sprintf("s%06d", i))
 				if err := materialise(root, sc); err != nil {
 					res[i].err = err
-					os.RemoveAll(root)
+					cleanup(root, sc)
 					continue
 				}
 				hangMu.Lock()
@@ -426,7 +554,7 @@ func execAll(scs []*Scenario, rare, work string, par int, skipLib bool) []result
 				hangMu.Unlock()
 				if h >= 8 {
 					res[i].skipped = true
-					os.RemoveAll(root)
+					cleanup(root, sc)
 					continue
 				}
 				deadline := 15 * time.Second
@@ -452,9 +580,9 @@ func execAll(scs []*Scenario, rare, work string, par int, skipLib bool) []result
 						hangMu.Unlock()
 					}
 				} else {
-					res[i].lib = LibObs{Rows: []Row{}}
+					res[i].lib = LibObs{Rows: []Row{}, Peak: -1}
 				}
-				os.RemoveAll(root)
+				cleanup(root, sc)
 			}
 		}()
 	}
@@ -516,6 +644,10 @@ func classOf(sc *Scenario) string {
 		if n.K != "file" && n.K != "dir" && !seen[n.K] {
 			seen[n.K] = true
 			tags = append(tags, n.K)
+		}
+		if n.Tr == "pipe" && !seen["pipe"] {
+			seen["pipe"] = true
+			tags = append(tags, "pipe")
 		}
 	}
 	sort.Strings(tags)
@@ -596,11 +728,19 @@ func compare(t int, sc *Scenario, r *result) []Mismatch {
 	if sc.Cmd == "filter" && len(exp.Partial) == 0 && (obs.Matched != exp.Matched || obs.Read != exp.Read) {
 		add("summary", fmt.Sprintf("summary: spec matched %d / read %d, got %d / %d", exp.Matched, exp.Read, obs.Matched, obs.Read))
 	}
+	if obs.Peak > exp.MaxOpen {
+		add("fds", fmt.Sprintf("inputs open at the same time: spec at most %d (--readers), seen %d", exp.MaxOpen, obs.Peak))
+	}
 	if r.lib.Ran {
 		if r.lib.Hang {
 			add("lib-hang", "OpenFilesToChan did not close its channel within 25 s")
-		} else if r.lib.Nerr != exp.Nerr {
-			add("lib-nerr", fmt.Sprintf("Batcher.ReadErrors(): spec %d, got %d", exp.Nerr, r.lib.Nerr))
+		} else {
+			if r.lib.Nerr != exp.Nerr {
+				add("lib-nerr", fmt.Sprintf("Batcher.ReadErrors(): spec %d, got %d", exp.Nerr, r.lib.Nerr))
+			}
+			if r.lib.Peak > exp.MaxOpen {
+				add("lib-fds", fmt.Sprintf("OpenFilesToChan: inputs open at the same time: spec at most %d (concurrency), seen %d", exp.MaxOpen, r.lib.Peak))
+			}
 		}
 	}
 	return out
@@ -631,8 +771,8 @@ func c06Replay(args []string) error {
 	if err != nil {
 		return err
 	}
-	wd, _ := filepath.Abs(*work)
-	if err := os.MkdirAll(wd, 0o755); err != nil {
+	wd, err := workDir(*work)
+	if err != nil {
 		return err
 	}
 	*out, _ = filepath.Abs(*out)
@@ -661,9 +801,30 @@ func c06Replay(args []string) error {
 	})
 	rng := vh.NewRand(606)
 	batches := []int{1, 2, 1000}
+	nhold := 0
 	for _, sc := range scs {
 		sc.Batch = batches[rng.Intn(len(batches))]
 		sc.CutSel = rng.Intn(1000)
+		// a mentioned FIFO keeps its reader waiting while the open inputs of the run are counted
+		ment := map[string]bool{}
+		for _, m := range sc.Mentions {
+			ment[string(vh.FromInts(m))] = true
+		}
+		nf := 0
+		for i := range sc.Tree {
+			if n := &sc.Tree[i]; n.Tr == "pipe" && !isAbsNode(n) && ment[string(vh.FromInts(n.P))] {
+				nf++
+			}
+		}
+		if nf > sc.Readers {
+			nf = sc.Readers
+		}
+		if nf > 0 && len(sc.Mentions) > 1 {
+			sc.Hold, sc.Window = nf, 20
+			if nhold++; nhold%4 == 0 {
+				sc.LibHold, sc.LibWindow = nf, 6
+			}
+		}
 	}
 	res := execAll(scs, rare, wd, *par, false)
 	tw, err := vh.NewNdWriter(*trace)
@@ -752,7 +913,7 @@ func randScenario(rng *rand.Rand) *Scenario {
 			p = par.path + "/" + name
 		}
 		dirs = append(dirs, &dirT{path: p, depth: par.depth + 1, used: map[string]bool{}})
-		sc.Tree = append(sc.Tree, Node{P: vh.BS(p), K: "dir", Data: []int{}})
+		sc.Tree = append(sc.Tree, Node{P: vh.BS(p), K: "dir", Data: []int{}, Tr: "reg"})
 	}
 	nf := rng.Intn(13)
 	if rng.Intn(4) == 0 {
@@ -781,7 +942,10 @@ func randScenario(rng *rand.Rand) *Scenario {
 		if rng.Intn(10) == 0 {
 			maxLines = 40 // some inputs long enough for concurrent readers to overlap
 		}
-		n := Node{P: vh.BS(p), K: "file", Data: randData(rng, maxLines)}
+		n := Node{P: vh.BS(p), K: "file", Data: randData(rng, maxLines), Tr: "reg"}
+		if rng.Intn(12) == 0 { // a text that starts with the gzip magic number
+			n.Data = append([]int{0x1f, 0x8b}, n.Data...)
+		}
 		if sc.Gz {
 			switch x := rng.Intn(100); {
 			case x < 50:
@@ -872,7 +1036,80 @@ func randScenario(rng *rand.Rand) *Scenario {
 		}
 		sc.Argv = append(sc.Argv, vh.BS(a))
 	}
+	addSpecialInputs(rng, sc, &truncLeft)
 	return sc
+}
+
+// addSpecialInputs: inputs that cannot be rewound and report size 0.  FIFOs live in a reserved directory
+// deeper than any generated glob reaches (a pipe hands its bytes out once: the specification's domain mentions
+// it at most once), each named by exactly one extra argument; /dev/stdin or /dev/fd/3 is an inherited pipe or
+// regular file.
+func addSpecialInputs(rng *rand.Rand, sc *Scenario, truncLeft *int) {
+	kindData := func() (string, []int) {
+		k, d := "file", randData(rng, 5)
+		if rng.Intn(6) == 0 {
+			d = append([]int{0x1f, 0x8b}, d...)
+		}
+		if sc.Gz {
+			switch x := rng.Intn(10); {
+			case x < 4:
+			case x < 7:
+				k = "gz"
+			case x < 8:
+				k = "crcgz"
+			case x < 9:
+				k, d = "badgz", []int{}
+			default:
+				if *truncLeft > 0 {
+					*truncLeft--
+					k, d = "truncgz", randData(rng, 9)
+				}
+			}
+		}
+		return k, d
+	}
+	insert := func(a string) {
+		at := rng.Intn(len(sc.Argv) + 1)
+		sc.Argv = append(sc.Argv, nil)
+		copy(sc.Argv[at+1:], sc.Argv[at:])
+		sc.Argv[at] = vh.BS(a)
+	}
+	if rng.Intn(4) == 0 {
+		for _, d := range []string{"pp", "pp/q", "pp/q/r", "pp/q/r/s"} {
+			sc.Tree = append(sc.Tree, Node{P: vh.BS(d), K: "dir", Data: []int{}, Tr: "reg"})
+		}
+		np := 1 + rng.Intn(2)
+		for i := 1; i <= np; i++ {
+			k, d := kindData()
+			sc.Tree = append(sc.Tree, Node{P: vh.BS(fmt.Sprintf("pp/q/r/s/p%d", i)), K: k, Data: d, Tr: "pipe"})
+		}
+		switch rng.Intn(3) {
+		case 0:
+			insert("pp/q/r/s/p?")
+		case 1:
+			insert("pp/*/r/s/*")
+		default:
+			for i := 1; i <= np; i++ {
+				insert(fmt.Sprintf("pp/q/r/s/p%d", i))
+			}
+		}
+		if np > sc.Readers {
+			np = sc.Readers
+		}
+		sc.Hold, sc.Window = np, 20
+		if rng.Intn(3) == 0 {
+			sc.LibHold, sc.LibWindow = np, 6
+		}
+	}
+	if rng.Intn(8) == 0 {
+		k, d := kindData()
+		n := Node{P: vh.BS([]string{"/dev/stdin", "/dev/fd/3"}[rng.Intn(2)]), K: k, Data: d, Tr: []string{"pipe", "pipe", "reg"}[rng.Intn(3)]}
+		sc.Tree = append(sc.Tree, n)
+		insert(string(vh.FromInts(n.P)))
+		if n.Tr == "reg" && rng.Intn(3) == 0 {
+			insert(string(vh.FromInts(n.P))) // a regular file behind a descriptor can be opened again
+		}
+	}
 }
 
 func c06Random(args []string) error {
@@ -889,8 +1126,8 @@ func c06Random(args []string) error {
 	if err != nil {
 		return err
 	}
-	wd, _ := filepath.Abs(*work)
-	if err := os.MkdirAll(wd, 0o755); err != nil {
+	wd, err := workDir(*work)
+	if err != nil {
 		return err
 	}
 	*out, _ = filepath.Abs(*out)
